@@ -282,6 +282,40 @@ theorem lastOn_refilter (L : List Rec) (q : Rec → Bool) (x : Key)
         simp only [opsOf] at this hl; rw [this] at hf
         rw [hl, ← hf]
 
+/-- the same for any *tail* of the journaled part: whatever of it is re-applied changes nothing -/
+theorem lastOn_resuffix (L : List Rec) (q : Rec → Bool) (V W : List Rec) (x : Key)
+    (hVW : L.filter q = V ++ W)
+    (hq : ∀ r ∈ L, r.op.isDel = true → q r = true) (h : noLive (opsOf L) = true) :
+    lastOn x (opsOf (L ++ W)) = lastOn x (opsOf L) := by
+  have hF := noLive_filter L q hq h
+  rw [hVW] at hF
+  have hW : noLive (opsOf W) = true := by
+    simp only [opsOf, List.map_append] at hF
+    exact noLive_suffix _ _ hF
+  simp only [opsOf, List.map_append]
+  rw [lastOn_append]
+  cases hw : lastOn x (W.map (·.op)) with
+  | none => rfl
+  | some e =>
+    simp only
+    have he : e = none := by
+      cases e with
+      | none => rfl
+      | some v => exact absurd hw (noLive_spec _ hW x v)
+    subst he
+    -- `x` is touched in `W`, hence in the filter, hence in `L`; `L` has no live put
+    have hfilt : lastOn x (opsOf (L.filter q)) ≠ none := by
+      rw [hVW]
+      simp only [opsOf, List.map_append]
+      rw [lastOn_append, hw]
+      simp
+    cases hl : lastOn x (opsOf L) with
+    | none => exact absurd (lastOn_filter_none L q x hl) hfilt
+    | some e' =>
+      cases e' with
+      | none => simp only [opsOf] at hl; rw [hl]
+      | some v' => exact absurd hl (noLive_spec _ h x v')
+
 /-! ### seqno order -/
 
 def SeqSorted (L : List Rec) : Prop := L.Pairwise fun a b => a.seqno ≤ b.seqno
@@ -323,9 +357,10 @@ open Fjall Fjall.Spec
 
 /-! ### coverage invariant of one keyspace against its journal records -/
 
-/-- `rk` = the journal's records of this keyspace.  After the last `clear` (if any) they are: the
-    journaled part of what the tables reflect (`F1 ++ Y`), then what only the memtables hold (`N`);
-    the memtables may also hold a stale re-replayed tail `Y` of the tables' part. -/
+/-- `rk` = the records of this keyspace in the journals that still exist.  After the last `clear`
+    (if any) they are: journaled records the tables reflect (`F1 ++ Y`), then what only the memtables
+    hold (`N`); the memtables may also hold a stale re-replayed tail `Y` of the tables' part.  `Z` =
+    journaled records the tables reflect whose journals were already evicted. -/
 structure Cov (k : KsL) (rk : List Rec) : Prop where
   jr : ∀ r ∈ rk, r.ing = false
   noClearT : ∀ r ∈ k.tables, r.op.isClear = false
@@ -336,10 +371,10 @@ structure Cov (k : KsL) (rk : List Rec) : Prop where
   persLe : ∀ p, k.persisted = some p → ∃ t ∈ k.tables, p ≤ t.seqno
   persMem : ∀ m ∈ k.sealedMem ++ k.mem, above k.persisted m = true
   phys : k.physOk = true
-  struct : ∃ A F1 Y N, rk = A ++ (F1 ++ Y ++ N) ∧ k.tables.filter (fun r => !r.ing) = F1 ++ Y ∧
+  struct : ∃ A Z F1 Y N, rk = A ++ (F1 ++ Y ++ N) ∧ k.tables.filter (fun r => !r.ing) = Z ++ (F1 ++ Y) ∧
       k.sealedMem ++ k.mem = Y ++ N ∧ (∀ r ∈ F1 ++ Y ++ N, r.op.isClear = false) ∧
       (∀ t ∈ k.tables, ∀ m ∈ N, t.seqno < m.seqno) ∧
-      (A = [] ∨ ∃ A' c, A = A' ++ [c] ∧ c.op = .clear ∧ ∀ t ∈ k.tables, c.seqno ≤ t.seqno)
+      (A = [] ∨ (Z = [] ∧ ∃ A' c, A = A' ++ [c] ∧ c.op = .clear ∧ ∀ t ∈ k.tables, c.seqno ≤ t.seqno))
 
 /-- records of other keyspaces are skipped -/
 theorem replayKs_filter (k : KsL) (recs : List Rec) :
@@ -387,12 +422,12 @@ theorem replayKs_clear (k : KsL) (c : Rec) (hks : c.ks = k.id) (hc : c.op = .cle
 
 /-- the two shapes a recovered keyspace can have -/
 theorem recover_ks_shape (k : KsL) (rk : List Rec) (hks : ∀ r ∈ rk, r.ks = k.id) (h : Cov k rk) :
-    (∃ F1a F1f Y N, replayKs { k with sealedMem := [], mem := [] } (rk.filter (above k.persisted))
+    (∃ Z F1a F1f Y N V, replayKs { k with sealedMem := [], mem := [] } (rk.filter (above k.persisted))
         = { k with sealedMem := [], mem := F1f ++ Y ++ N } ∧
       (∃ A, rk = A ++ (F1a ++ F1f ++ Y ++ N) ∧
-        (A = [] ∨ ∃ A' c, A = A' ++ [c] ∧ c.op = .clear ∧ ∀ t ∈ k.tables, c.seqno ≤ t.seqno)) ∧
-      k.tables.filter (fun r => !r.ing) = F1a ++ F1f ++ Y ∧
-      (k.tables.filter (above k.persisted)).filter (fun r => !r.ing) = F1f ++ Y ∧
+        (A = [] ∨ (Z = [] ∧ ∃ A' c, A = A' ++ [c] ∧ c.op = .clear ∧ ∀ t ∈ k.tables, c.seqno ≤ t.seqno))) ∧
+      k.tables.filter (fun r => !r.ing) = Z ++ (F1a ++ F1f ++ Y) ∧
+      (k.tables.filter (above k.persisted)).filter (fun r => !r.ing) = V ++ (F1f ++ Y) ∧
       k.sealedMem ++ k.mem = Y ++ N ∧ (∀ r ∈ F1f ++ Y ++ N, above k.persisted r = true) ∧
       (∀ r ∈ F1a ++ F1f ++ Y ++ N, r.op.isClear = false) ∧ (∀ t ∈ k.tables, ∀ m ∈ N, t.seqno < m.seqno))
     ∨
@@ -402,7 +437,7 @@ theorem recover_ks_shape (k : KsL) (rk : List Rec) (hks : ∀ r ∈ rk, r.ks = k
       k.tables.filter (fun r => !r.ing) = F ∧ k.tables.filter (above k.persisted) = k.tables ∧
       (∃ Y N', F = (F.take (F.length - Y.length)) ++ Y ∧ k.sealedMem ++ k.mem = Y ++ N' ∧ N = N') ∧
       (∀ r ∈ F ++ N, r.op.isClear = false)) := by
-  obtain ⟨A, F1, Y, N, hrk, hF, hmem, hnc, hTN, hA⟩ := h.struct
+  obtain ⟨A, Z, F1, Y, N, hrk, hF, hmem, hnc, hTN, hA⟩ := h.struct
   have hYN : ∀ r ∈ Y ++ N, above k.persisted r = true := by
     intro r hr; rw [← hmem] at hr; exact h.persMem r hr
   have hsF1 : SeqSorted F1 := by
@@ -430,11 +465,11 @@ theorem recover_ks_shape (k : KsL) (rk : List Rec) (hks : ∀ r ∈ rk, r.ks = k
     · right; exact h1
   -- does the last clear get replayed?
   have hcaseA : A.filter (above k.persisted) = [] ∨
-      ∃ A' c, A = A' ++ [c] ∧ c.op = .clear ∧ (∀ t ∈ k.tables, c.seqno ≤ t.seqno) ∧ above k.persisted c = true := by
-    rcases hA with rfl | ⟨A', c, rfl, hc, hct⟩
+      (Z = [] ∧ ∃ A' c, A = A' ++ [c] ∧ c.op = .clear ∧ (∀ t ∈ k.tables, c.seqno ≤ t.seqno) ∧ above k.persisted c = true) := by
+    rcases hA with rfl | ⟨hZ, A', c, rfl, hc, hct⟩
     · left; rfl
     · by_cases hab : above k.persisted c = true
-      · right; exact ⟨A', c, rfl, hc, hct, hab⟩
+      · right; exact ⟨hZ, A', c, rfl, hc, hct, hab⟩
       · left
         apply filter_above_none
         intro a ha
@@ -448,9 +483,9 @@ theorem recover_ks_shape (k : KsL) (rk : List Rec) (hks : ∀ r ∈ rk, r.ks = k
         cases hx : above k.persisted a with
         | false => rfl
         | true => exact absurd (above_mono _ a c hle hx) hab
-  rcases hcaseA with hAe | ⟨A', c, rfl, hc, hct, hab⟩
+  rcases hcaseA with hAe | ⟨hZ, A', c, rfl, hc, hct, hab⟩
   · left
-    refine ⟨F1.filter (fun r => !above k.persisted r), F1.filter (above k.persisted), Y, N, ?_, ⟨A, ?_, hA⟩, ?_, ?_, hmem, ?_, ?_, hTN⟩
+    refine ⟨Z, F1.filter (fun r => !above k.persisted r), F1.filter (above k.persisted), Y, N, Z.filter (above k.persisted), ?_, ⟨A, ?_, hA⟩, ?_, ?_, hmem, ?_, ?_, hTN⟩
     · rw [hfilt, hAe, List.nil_append, replayKs_noClear { k with sealedMem := [], mem := [] } _ hksF hncF]
       simp
     · rw [← sorted_split F1 _ hsF1]; exact hrk
@@ -458,7 +493,7 @@ theorem recover_ks_shape (k : KsL) (rk : List Rec) (hks : ∀ r ∈ rk, r.ks = k
     · rw [List.filter_filter]
       have : (k.tables.filter fun r => (!r.ing) && above k.persisted r) = (k.tables.filter (fun r => !r.ing)).filter (above k.persisted) := by
         rw [List.filter_filter]; congr 1; funext r; exact Bool.and_comm _ _
-      rw [this, hF, List.filter_append, filter_above_all Y _ (fun r hr => hYN r (by simp [hr]))]
+      rw [this, hF, List.filter_append, List.filter_append, filter_above_all Y _ (fun r hr => hYN r (by simp [hr]))]
     · intro r hr
       simp only [List.mem_append, List.mem_filter] at hr
       rcases hr with (⟨_, h1⟩ | h1) | h1
@@ -467,13 +502,14 @@ theorem recover_ks_shape (k : KsL) (rk : List Rec) (hks : ∀ r ∈ rk, r.ks = k
       · exact hYN r (by simp [h1])
     · rw [← sorted_split F1 _ hsF1]; exact hnc
   · right
+    subst hZ
     have hTall : ∀ t ∈ k.tables, above k.persisted t = true := fun t ht => above_mono _ c t (hct t ht) hab
     have hF1all : F1.filter (above k.persisted) = F1 := by
       apply filter_above_all
       intro r hr
       have : r ∈ k.tables.filter (fun r => !r.ing) := by rw [hF]; simp [hr]
       exact hTall r (List.mem_filter.mp this).1
-    refine ⟨F1 ++ Y, N, ?_, ⟨A' ++ [c], by rw [hrk], A', c, rfl, hc⟩, hF, filter_above_all _ _ hTall, ⟨Y, N, by simp, hmem, rfl⟩, by simpa using hnc⟩
+    refine ⟨F1 ++ Y, N, ?_, ⟨A' ++ [c], by rw [hrk], A', c, rfl, hc⟩, by simpa using hF, filter_above_all _ _ hTall, ⟨Y, N, by simp, hmem, rfl⟩, by simpa using hnc⟩
     rw [hfilt, hF1all]
     have hcab : (A' ++ [c]).filter (above k.persisted) = A'.filter (above k.persisted) ++ [c] := by
       simp [List.filter_append, List.filter, hab]
@@ -565,7 +601,7 @@ theorem recover_ks_abs (k : KsL) (rk : List Rec) (hks : ∀ r ∈ rk, r.ks = k.i
   intro x
   have hkabs : k.abs = applyAll [] (opsOf (k.tables ++ (k.sealedMem ++ k.mem))) := by
     simp [KsL.abs, opsOf]
-  rcases recover_ks_shape k rk hks h with ⟨F1a, F1f, Y, N, hrep, _, _, hT2, hmem, _, hnc, _⟩ | ⟨F, N, hrep, _, hF, hTall, ⟨Y, N', hFY, hmem, rfl⟩, hnc⟩
+  rcases recover_ks_shape k rk hks h with ⟨Z, F1a, F1f, Y, N, V, hrep, _, _, hT2, hmem, _, hnc, _⟩ | ⟨F, N, hrep, _, hF, hTall, ⟨Y, N', hFY, hmem, rfl⟩, hnc⟩
   · rw [hrep, hkabs, hmem]
     simp only [KsL.abs, List.append_nil]
     have hncT := opsOf_noClear _ h.noClearT
@@ -587,9 +623,8 @@ theorem recover_ks_abs (k : KsL) (rk : List Rec) (hks : ∀ r ∈ rk, r.ks = k.i
     rw [e1, applyAll_get _ _ hnc1 x, applyAll_get _ _ hnc2 x]
     -- split the tables at the persisted seqno
     have hsplit := sorted_split k.tables k.persisted h.sortedT
-    have hD := lastOn_refilter (k.tables.filter (above k.persisted)) (fun r => !r.ing) x
+    have hD := lastOn_resuffix (k.tables.filter (above k.persisted)) (fun r => !r.ing) V (F1f ++ Y) x hT2
       (keepsDels k rk h _ (fun r hr => (List.mem_filter.mp hr).1)) h.phys
-    rw [hT2] at hD
     rw [hsplit]
     simp only [opsOf_append] at hD ⊢
     rw [lastOn_case1 x _ _ _ _ _ hD]
@@ -634,21 +669,21 @@ theorem physOk_nil (id : KsId) (nm : String) (sm m : List Rec) (p : Option Nat) 
 
 theorem cov_fresh (id : KsId) (nm : String) : Cov { id := id, name := nm } [] := by
   refine ⟨by simp, by simp, by simp, List.Pairwise.nil, List.Pairwise.nil, by simp, by simp, by simp, rfl,
-    [], [], [], [], by simp, by simp, by simp, by simp, by simp, Or.inl rfl⟩
+    [], [], [], [], [], by simp, by simp, by simp, by simp, by simp, Or.inl rfl⟩
 
 /-- the state a keyspace is in after recovery is covered by the same journal again
     (so any number of reopen cycles is fine) -/
 theorem cov_recovered (k : KsL) (rk : List Rec) (hks : ∀ r ∈ rk, r.ks = k.id) (h : Cov k rk) :
     Cov (replayKs { k with sealedMem := [], mem := [] } (rk.filter (above k.persisted))) rk := by
-  rcases recover_ks_shape k rk hks h with ⟨F1a, F1f, Y, N, hrep, ⟨A, hrk, hA⟩, hF, _, hmem, hab, hnc, hTN⟩ | ⟨F, N, hrep, ⟨A, hrk, A', c, hA, hc⟩, hF, hTall, _, hnc⟩
+  rcases recover_ks_shape k rk hks h with ⟨Z, F1a, F1f, Y, N, V, hrep, ⟨A, hrk, hA⟩, hF, _, hmem, hab, hnc, hTN⟩ | ⟨F, N, hrep, ⟨A, hrk, A', c, hA, hc⟩, hF, hTall, _, hnc⟩
   · rw [hrep]
     refine ⟨h.jr, h.noClearT, h.ingPut, h.sortedJ, h.sortedT, by simp, h.persLe, ?_, h.phys, ?_⟩
     · simpa using hab
-    · refine ⟨A, F1a, F1f ++ Y, N, by rw [hrk]; simp, by rw [hF]; simp, by simp, ?_, hTN, hA⟩
+    · refine ⟨A, Z, F1a, F1f ++ Y, N, by rw [hrk]; simp, by rw [hF]; simp, by simp, ?_, hTN, hA⟩
       intro r hr; exact hnc r (by simpa [List.append_assoc] using hr)
   · rw [hrep]
     refine ⟨h.jr, by simp, by simp, h.sortedJ, List.Pairwise.nil, by simp, by simp, by simp [above], rfl, ?_⟩
-    refine ⟨A, [], [], F ++ N, by rw [hrk]; simp, by simp, by simp, by simpa using hnc, by simp, Or.inr ⟨A', c, hA, hc, by simp⟩⟩
+    refine ⟨A, [], [], [], F ++ N, by rw [hrk]; simp, by simp, by simp, by simpa using hnc, by simp, Or.inr ⟨rfl, A', c, hA, hc, by simp⟩⟩
 
 theorem sorted_append_one (L : List Rec) (r : Rec) (h : SeqSorted L) (hle : ∀ x ∈ L, x.seqno ≤ r.seqno) :
     SeqSorted (L ++ [r]) := by
@@ -667,7 +702,7 @@ theorem cov_step (k : KsL) (rk : List Rec) (r : Rec) (hr : r.ks = k.id) (hing : 
     · exact h.jr x hx
     · exact hing
   have hsj := sorted_append_one rk r h.sortedJ hle
-  obtain ⟨A, F1, Y, N, hrk, hF, hmem, hnc, hTN, hA⟩ := h.struct
+  obtain ⟨A, Z, F1, Y, N, hrk, hF, hmem, hnc, hTN, hA⟩ := h.struct
   rw [show stepKs r k = applyRec r k from if_pos hr.symm]
   simp only [applyRec]
   have hput : r.op.isClear = false →
@@ -689,7 +724,7 @@ theorem cov_step (k : KsL) (rk : List Rec) (r : Rec) (hr : r.ks = k.id) (hing : 
           obtain ⟨t, ht, hpt⟩ := h.persLe p hp
           have := hlt t (by simp [ht])
           simp only [above, decide_eq_true_eq]; omega
-    · refine ⟨A, F1, Y, N ++ [r], by rw [hrk]; simp, hF, by simp only [← List.append_assoc, hmem], ?_, ?_, hA⟩
+    · refine ⟨A, Z, F1, Y, N ++ [r], by rw [hrk]; simp, hF, by simp only [← List.append_assoc, hmem], ?_, ?_, hA⟩
       · intro x hx
         simp only [← List.append_assoc, List.mem_append, List.mem_singleton] at hx
         rcases hx with hx | rfl
@@ -704,7 +739,7 @@ theorem cov_step (k : KsL) (rk : List Rec) (r : Rec) (hr : r.ks = k.id) (hing : 
   | clear =>
     simp only
     refine ⟨hjr, by simp, by simp, hsj, List.Pairwise.nil, by simp, by simp, by simp, rfl, ?_⟩
-    exact ⟨rk ++ [r], [], [], [], by simp, by simp, by simp, by simp, by simp, Or.inr ⟨rk, r, rfl, hop, by simp⟩⟩
+    exact ⟨rk ++ [r], [], [], [], [], by simp, by simp, by simp, by simp, by simp, Or.inr ⟨rfl, rk, r, rfl, hop, by simp⟩⟩
   | put kk v => simp only; exact hput (by simp [hop, LOp.isClear])
   | del kk => simp only; exact hput (by simp [hop, LOp.isClear])
 
@@ -744,10 +779,10 @@ theorem cov_rotate (k : KsL) (rk : List Rec) (h : Cov k rk) : Cov (sealMem k) rk
   unfold sealMem
   split
   · exact h
-  · obtain ⟨A, F1, Y, N, hrk, hF, hmem, hnc, hTN, hA⟩ := h.struct
+  · obtain ⟨A, Z, F1, Y, N, hrk, hF, hmem, hnc, hTN, hA⟩ := h.struct
     refine ⟨h.jr, h.noClearT, h.ingPut, h.sortedJ, h.sortedT, by simp, h.persLe, ?_, h.phys, ?_⟩
     · simpa using h.persMem
-    · exact ⟨A, F1, Y, N, hrk, hF, by simpa using hmem, hnc, hTN, hA⟩
+    · exact ⟨A, Z, F1, Y, N, hrk, hF, by simpa using hmem, hnc, hTN, hA⟩
 
 theorem maxSeqno_spec (L : List Rec) :
     (L = [] ∧ maxSeqno L = none) ∨ (∃ m, maxSeqno L = some m ∧ (∀ r ∈ L, r.seqno ≤ m) ∧ ∃ r ∈ L, r.seqno = m) := by
@@ -829,15 +864,17 @@ theorem optMax_spec (p : Option Nat) (m : Nat) :
 theorem optMax_none (p : Option Nat) : optMax p none = p := by cases p <;> rfl
 
 theorem cov_flushSealed (k : KsL) (rk : List Rec) (h : Cov k rk) : Cov k.flushSealed rk := by
-  obtain ⟨A, F1, Y, N, hrk, hF, hmem, hnc, hTN, hA⟩ := h.struct
+  obtain ⟨A, Z, F1, Y, N, hrk, hF, hmem, hnc, hTN, hA⟩ := h.struct
   have hsj : SeqSorted (A ++ (F1 ++ Y ++ N)) := hrk ▸ h.sortedJ
   have hsubT : ∀ r ∈ F1 ++ Y, r ∈ k.tables := by
-    intro r hr; rw [← hF] at hr; exact (List.mem_filter.mp hr).1
+    intro r hr
+    have : r ∈ k.tables.filter (fun r => !r.ing) := by rw [hF]; simp only [List.mem_append] at hr ⊢; right; exact hr
+    exact (List.mem_filter.mp this).1
   have hjrB : ∀ r ∈ F1 ++ Y ++ N, r.ing = false := by
     intro r hr; apply h.jr; rw [hrk]; simp only [List.mem_append] at hr ⊢; right; exact hr
   have hAc : ∀ t ∈ F1 ++ Y ++ N, (A = [] ∨ ∃ A' c, A = A' ++ [c] ∧ c.op = .clear ∧ c.seqno ≤ t.seqno) := by
     intro t ht
-    rcases hA with rfl | ⟨A', c, rfl, hc, _⟩
+    rcases hA with rfl | ⟨_, A', c, rfl, hc, _⟩
     · left; rfl
     · right; exact ⟨A', c, rfl, hc, (List.pairwise_append.mp hsj).2.2 c (by simp) t ht⟩
   -- persisted
@@ -892,7 +929,7 @@ theorem cov_flushSealed (k : KsL) (rk : List Rec) (h : Cov k rk) : Cov k.flushSe
       exact hq4 m (h.persMem m (by simp [hm])) (fun s hs => h.sealedLt s hs m hm)
     · simp only [KsL.physOk, hT', hq]
       exact phys_raise _ _ _ h.sortedT hq1 h.phys
-    · refine ⟨A, F1 ++ k.sealedMem, Y2, N, by rw [hrk, hY]; simp, by rw [hT', hF, hY]; simp,
+    · refine ⟨A, Z, F1 ++ k.sealedMem, Y2, N, by rw [hrk, hY]; simp, by rw [hT', hF, hY]; simp,
         by simp [KsL.flushSealed, hM], ?_, by rw [hT']; exact hTN, by rw [hT']; exact hA⟩
       intro r hr
       exact hnc r (by rw [hY]; simpa [List.append_assoc] using hr)
@@ -949,7 +986,7 @@ theorem cov_flushSealed (k : KsL) (rk : List Rec) (h : Cov k rk) : Cov k.flushSe
         rw [this]; simp
       rw [this]
       exact phys_raise _ _ _ h.sortedT hq1 h.phys
-    · refine ⟨A, F1 ++ Y ++ N1, [], k.mem, by rw [hrk, hN]; simp, ?_, by simp [KsL.flushSealed], ?_, ?_, ?_⟩
+    · refine ⟨A, Z, F1 ++ Y ++ N1, [], k.mem, by rw [hrk, hN]; simp, ?_, by simp [KsL.flushSealed], ?_, ?_, ?_⟩
       · rw [hT', List.filter_append, hF]
         have : N1.filter (fun r => !r.ing) = N1 := by
           simp only [List.filter_eq_self]; intro n hn; simp [hjrB n (hN1B n hn)]
@@ -960,10 +997,10 @@ theorem cov_flushSealed (k : KsL) (rk : List Rec) (h : Cov k rk) : Cov k.flushSe
         · exact hTN t ht m (by rw [hN]; simp [hm])
         · exact h.sealedLt t (by rw [hSM]; simp [ht]) m hm
       · rw [hT']
-        rcases hA with rfl | ⟨A', c, rfl, hc, hct⟩
+        rcases hA with rfl | ⟨hZ, A', c, rfl, hc, hct⟩
         · left; rfl
         · right
-          refine ⟨A', c, rfl, hc, ?_⟩
+          refine ⟨hZ, A', c, rfl, hc, ?_⟩
           intro t ht; simp only [List.mem_append] at ht
           rcases ht with ht | ht
           · exact hct t ht
@@ -1014,7 +1051,7 @@ theorem cov_ingest (k : KsL) (rk : List Rec) (recs : List Rec) (g : Nat) (h : Co
     (hrecs : ∀ r ∈ recs, r.seqno = g ∧ r.ing = true ∧ r.op.isDel = false ∧ r.op.isClear = false)
     (hg : ∀ t ∈ k.tables, t.seqno < g) (hgj : ∀ r ∈ rk, r.seqno ≤ g) :
     Cov { k with tables := k.tables ++ recs, persisted := optMax k.persisted (some g) } rk := by
-  obtain ⟨A, F1, Y, N, hrk, hF, hmem, hnc, hTN, hA⟩ := h.struct
+  obtain ⟨A, Z, F1, Y, N, hrk, hF, hmem, hnc, hTN, hA⟩ := h.struct
   rw [hsm, hm] at hmem
   have hY : Y = [] := by cases Y <;> simp_all
   have hN : N = [] := by cases N <;> simp_all
@@ -1051,18 +1088,94 @@ theorem cov_ingest (k : KsL) (rk : List Rec) (recs : List Rec) (g : Nat) (h : Co
       · have := hg r hr; omega
       · rw [(hrecs r hr).1]; omega
     rw [this]; rfl
-  · refine ⟨A, F1, [], [], hrk, ?_, by simp [hsm, hm], hnc, by simp, ?_⟩
+  · refine ⟨A, Z, F1, [], [], hrk, ?_, by simp [hsm, hm], hnc, by simp, ?_⟩
     · rw [List.filter_append, hF]
       have : recs.filter (fun r => !r.ing) = [] := by
         simp only [List.filter_eq_nil_iff]; intro r hr; simp [(hrecs r hr).2.1]
       rw [this]; simp
-    · rcases hA with rfl | ⟨A', c, rfl, hc, hct⟩
+    · rcases hA with rfl | ⟨hZ, A', c, rfl, hc, hct⟩
       · left; rfl
       · right
-        refine ⟨A', c, rfl, hc, ?_⟩
+        refine ⟨hZ, A', c, rfl, hc, ?_⟩
         intro t ht; simp only [List.mem_append] at ht
         rcases ht with ht | ht
         · exact hct t ht
         · rw [(hrecs t ht).1]; exact hgj c (by rw [hrk]; simp)
+
+end Fjall.Db
+
+namespace Fjall.Db
+open Fjall Fjall.Spec
+
+/-! ### journal eviction and memory re-partition -/
+
+theorem sorted_suffix (D R : List Rec) (h : SeqSorted (D ++ R)) : SeqSorted R :=
+  (List.pairwise_append.mp h).2.1
+
+/-- **Evicting journals whose records are no longer in memory keeps coverage**: the records of the
+    evicted journals (`D`, a prefix of the keyspace's records) are all reflected in the tables or
+    superseded by a later `clear`. -/
+theorem cov_evict (k : KsL) (rk D rk' : List Rec) (h : Cov k rk) (hsplit : rk = D ++ rk')
+    (hD : ∀ d ∈ D, d ∉ k.sealedMem ++ k.mem) : Cov k rk' := by
+  obtain ⟨A, Z, F1, Y, N, hrk, hF, hmem, hnc, hTN, hA⟩ := h.struct
+  have hjr : ∀ r ∈ rk', r.ing = false := fun r hr => h.jr r (by rw [hsplit]; simp [hr])
+  have hsj : SeqSorted rk' := sorted_suffix D rk' (hsplit ▸ h.sortedJ)
+  -- the cut lies inside `A ++ F1`
+  have hcut : ∃ C, A ++ F1 = D ++ C ∧ rk' = C ++ (Y ++ N) := by
+    have e : (A ++ F1) ++ (Y ++ N) = D ++ rk' := by rw [← hsplit, hrk]; simp
+    rcases List.append_eq_append_iff.mp e with ⟨D', hD', hYN⟩ | ⟨C, hAF, hrk'⟩
+    · -- `D` reaches into the memory part: impossible unless that part of `D` is empty
+      have hD'e : D' = [] := by
+        cases D' with
+        | nil => rfl
+        | cons d ds =>
+          exfalso
+          have hdD : d ∈ D := by rw [hD']; simp
+          have hdm : d ∈ k.sealedMem ++ k.mem := by rw [hmem, hYN]; simp
+          exact hD d hdD hdm
+      subst hD'e
+      exact ⟨[], by simpa using hD'.symm, by simpa using hYN.symm⟩
+    · exact ⟨C, hAF, hrk'⟩
+  obtain ⟨C, hAF, hrk'⟩ := hcut
+  refine ⟨hjr, h.noClearT, h.ingPut, hsj, h.sortedT, h.sealedLt, h.persLe, h.persMem, h.phys, ?_⟩
+  rcases List.append_eq_append_iff.mp hAF with ⟨D2, hD2, hF1⟩ | ⟨A2, hA2, hC⟩
+  · -- all of `A` and the part `D2` of `F1` are gone: `D2` joins the evicted part `Z`
+    refine ⟨[], Z ++ D2, C, Y, N, by rw [hrk']; simp, by rw [hF, hF1]; simp, hmem, ?_, hTN, Or.inl rfl⟩
+    intro r hr
+    exact hnc r (by rw [hF1]; simp only [List.mem_append] at hr ⊢; rcases hr with (hr | hr) | hr <;> simp [hr])
+  · -- only a part of `A` is gone
+    refine ⟨A2, Z, F1, Y, N, by rw [hrk', hC]; simp, hF, hmem, hnc, hTN, ?_⟩
+    rcases hA with rfl | ⟨hZ, A', c, hAc, hc, hct⟩
+    · left
+      have : D ++ A2 = [] := hA2.symm
+      simp at this; exact this.2
+    · by_cases hA2e : A2 = []
+      · left; exact hA2e
+      · right
+        refine ⟨hZ, ?_⟩
+        have e : D ++ A2 = A' ++ [c] := by rw [← hA2, hAc]
+        rcases List.append_eq_append_iff.mp e with ⟨a', _, ha2⟩ | ⟨c', _, hc'⟩
+        · exact ⟨a', c, ha2, hc, hct⟩
+        · -- `[c] = c' ++ A2` with `A2 ≠ []`
+          cases c' with
+          | nil => simp at hc'; exact ⟨[], c, by simp [hc'], hc, hct⟩
+          | cons x xs =>
+            simp at hc'
+            exact absurd hc'.2.2 hA2e
+
+/-- coverage only looks at the memtables through `sealedMem ++ mem` and the strict order between
+    the two -/
+theorem cov_repartition (k : KsL) (rk : List Rec) (X Y : List Rec) (h : Cov k rk)
+    (hcat : X ++ Y = k.sealedMem ++ k.mem) (hlt : ∀ x ∈ X, ∀ y ∈ Y, x.seqno < y.seqno) :
+    Cov { k with sealedMem := X, mem := Y } rk := by
+  obtain ⟨A, Z, F1, Y', N, hrk, hF, hmem, hnc, hTN, hA⟩ := h.struct
+  refine ⟨h.jr, h.noClearT, h.ingPut, h.sortedJ, h.sortedT, hlt, h.persLe, ?_, h.phys, ?_⟩
+  · intro m hm; exact h.persMem m (by rw [← hcat]; exact hm)
+  · exact ⟨A, Z, F1, Y', N, hrk, hF, by rw [← hmem, ← hcat], hnc, hTN, hA⟩
+
+theorem abs_repartition (k : KsL) (X Y : List Rec) (hcat : X ++ Y = k.sealedMem ++ k.mem) :
+    ({ k with sealedMem := X, mem := Y } : KsL).abs = k.abs := by
+  simp only [KsL.abs, List.append_assoc]
+  rw [hcat]
 
 end Fjall.Db
